@@ -562,6 +562,336 @@ Qed.
 
 End WithConfig.
 
+(* ====================================================================== *)
+(* Exact specifications (state, record, effects appended) of spawn, give_up and of
+   `transition` in the states where the start policy is decided *)
+Ltac xarith :=
+  exfalso; unfold retry_due, give_up_due, kill_due, autostart_due, running_due in *;
+  repeat match goal with H : _ = true |- _ => progress pcbv_in H | H : _ = false |- _ => progress pcbv_in H end; lia.
+Ltac xleaf :=
+  lazymatch goal with
+  | |- sx _ _ _ _ _ _ _ _ => xarith
+  | |- _ => first [ left; eexists; repeat split; solve [reflexivity | assumption]
+                  | right; eexists; repeat split; solve [reflexivity | assumption]
+                  | repeat split; solve [reflexivity | assumption] ]
+  end.
+
+Lemma sx_world {A} i (m : Model.M A) w (Q : spost A) :
+  sx i m (sts w i) (procs w i) (out w) (now w) (mood w) Q ->
+  exists a w', m w = (Some a, w') /\ fr i w w' /\ Q a (sts w' i) (procs w' i) (out w').
+Proof. intros H. apply H; reflexivity. Qed.
+
+(* process i and the trace are exactly as before *)
+Definition unchanged (i : nat) (w w' : world) : Prop :=
+  sts w' i = sts w i /\ procs w' i = procs w i /\ out w' = out w.
+
+Section Specs.
+Variable U : Z.
+Variable pconfs : list pconf.
+Notation cf := (Model.cf pconfs).
+Notation spawn := (Model.spawn U pconfs).
+Notation transition := (Model.transition U pconfs).
+
+(* the record after spawn's preamble, after a successful fork, after a failed attempt, after give_up *)
+Definition sp1 (p : proc) (t : Z) : proc :=
+  p_laststart (p_admin (p_system (p_exitstatus (p_spawnerr (p_killing p false) false) None) false) false) t.
+Definition spawn_ok_p (i : nat) (p : proc) (t np : Z) : proc :=
+  p_delay (p_spawnerr (p_pid (sp1 p t) np) false) (t + c_startsecs (cf i) * U).
+Definition spawn_fail_p (p : proc) (t : Z) : proc :=
+  p_delay (p_backoff (p_spawnerr (sp1 p t) true) (backoff p + 1)) (t + (backoff p + 1) * U).
+Definition gu_p (p : proc) : proc := p_system (p_backoff (p_delay p 0) 0) true.
+
+(* what spawn does to a pid-less process in a spawnable state, at reading t: either the
+   STARTING notification and a fork, or STARTING, the failure and BACKOFF with one more failure counted *)
+Definition spawn_post (i : nat) (s : pstate) (p : proc) (o : list effect) (t : Z) : spost unit :=
+  fun _ s' p' o' =>
+  (exists np, s' = STARTING /\ p' = spawn_ok_p i p t np /\ c_cmd (cf i) = CmdOk /\
+              o' = EFork i np :: EState i s STARTING (backoff p) true :: o) \/
+  (exists k, s' = BACKOFF /\ p' = spawn_fail_p p t /\
+             o' = EState i STARTING BACKOFF (backoff p + 1) true :: ESpawnFail i k
+                  :: EState i s STARTING (backoff p) true :: o).
+
+Lemma spawn_sx i s p o t md :
+  pid p = 0 -> spawnable_state s = true -> sx i (spawn i) s p o t md (spawn_post i s p o t).
+Proof.
+  intros Hp Hs. pdestr p. pcbv_in Hp. subst xpid. unfold Model.spawn, spawn_post, spawn_ok_p, spawn_fail_p, sp1.
+  destruct s; try discriminate Hs; xrun; pcbv;
+    first [ left; eexists; repeat split; solve [reflexivity | assumption]
+          | right; eexists; repeat split; reflexivity ].
+Qed.
+
+Lemma spawn_sx_noop i s p o t md :
+  pid p <> 0 -> sx i (spawn i) s p o t md (fun _ s' p' o' => s' = s /\ p' = p /\ o' = o).
+Proof. intros Hp. pdestr p. pcbv_in Hp. unfold Model.spawn. xrun. auto. Qed.
+
+Lemma give_up_sx i p o t md :
+  sx i (Model.give_up U i) BACKOFF p o t md
+     (fun _ s' p' o' => s' = FATAL /\ p' = gu_p p /\ o' = EState i BACKOFF FATAL 0 true :: o).
+Proof. pdestr p. unfold Model.give_up, gu_p. xrun. pcbv. auto. Qed.
+
+End Specs.
+
+Ltac xspawn :=
+  lazymatch goal with
+  | |- sx _ (bind (Model.spawn _ _ _) _) _ _ _ _ _ _ =>
+    eapply sx_bind; [apply spawn_sx; [reflexivity | reflexivity] |];
+    cbv beta; unfold spawn_post, spawn_ok_p, spawn_fail_p, sp1;
+    let np := fresh "np" in let k := fresh "k" in let Hc := fresh "Hc" in
+    intros ?u ?s1 ?p1 ?o1 [(np & -> & -> & Hc & ->) | (k & -> & -> & ->)]; xnorm
+  end.
+Ltac xgiveup :=
+  lazymatch goal with
+  | |- sx _ (bind (Model.give_up _ _) _) _ _ _ _ _ _ =>
+    eapply sx_bind; [apply give_up_sx |]; cbv beta; unfold gu_p;
+    intros ?u ?s1 ?p1 ?o1 (-> & -> & ->); xnorm
+  | |- sx _ (Model.give_up _ _) _ _ _ _ _ _ => apply sx_tail; xgiveup
+  end.
+
+Section Policy.
+Variable U : Z.
+Variable pconfs : list pconf.
+Notation cf := (Model.cf pconfs).
+Notation spawn := (Model.spawn U pconfs).
+Notation transition := (Model.transition U pconfs).
+Notation spawn_post := (spawn_post U pconfs).
+Notation spawn_fail_p := (spawn_fail_p U).
+Notation spawn_ok_p := (spawn_ok_p U pconfs).
+
+(* ---------- Part A2: BACKOFF: retry, give up, or wait *)
+Definition tb_post (i : nat) (p : proc) (o : list effect) (t : Z) : spost unit := fun _ s' p' o' =>
+  let p0 := adjust_times U BACKOFF (cf i) t p in
+  if retry_due (cf i) p0 t then
+    (exists np, s' = STARTING /\ p' = spawn_ok_p i p0 t np /\
+                o' = EFork i np :: EState i BACKOFF STARTING (backoff p) true :: o) \/
+    (exists k, let pf := spawn_fail_p p0 t in
+               let o1 := EState i STARTING BACKOFF (backoff p + 1) true :: ESpawnFail i k
+                         :: EState i BACKOFF STARTING (backoff p) true :: o in
+               if give_up_due (cf i) pf then s' = FATAL /\ p' = gu_p pf /\ o' = EState i BACKOFF FATAL 0 true :: o1
+               else s' = BACKOFF /\ p' = pf /\ o' = o1)
+  else if give_up_due (cf i) p0 then s' = FATAL /\ p' = gu_p p0 /\ o' = EState i BACKOFF FATAL 0 true :: o
+  else s' = BACKOFF /\ p' = p0 /\ o' = o.
+
+Lemma transition_backoff_sx i p o t md :
+  pid p = 0 -> md >= 1 -> sx i (transition i) BACKOFF p o t md (tb_post i p o t).
+Proof.
+  intros Hp Hmd. pdestr p. pcbv_in Hp. subst xpid. unfold Model.transition. cbv zeta.
+  xstep. xstep. apply sx_rollback.
+  unfold tb_post, PolicyRun.spawn_fail_p, PolicyRun.spawn_ok_p, sp1, gu_p. cbv zeta. unfold adjust_times. pcbv.
+  destruct ((xdel >? 0) && (t <? xdel - xbo * U)) eqn:Eadj; pcbv.
+  - xrun; [xspawn; xrun; try xgiveup; xrun | xgiveup; xrun | ]. all: xleaf.
+  - xrun; [xspawn; xrun; try xgiveup; xrun | xgiveup; xrun | ]; xleaf.
+Qed.
+
+(* the same while shutting down (mood < 1): no retry, but an exhausted process is still given up *)
+Definition tb_down_post (i : nat) (p : proc) (o : list effect) (t : Z) : spost unit := fun _ s' p' o' =>
+  let p0 := adjust_times U BACKOFF (cf i) t p in
+  if give_up_due (cf i) p0 then s' = FATAL /\ p' = gu_p p0 /\ o' = EState i BACKOFF FATAL 0 true :: o
+  else s' = BACKOFF /\ p' = p0 /\ o' = o.
+
+Lemma transition_backoff_down_sx i p o t md :
+  md < 1 -> sx i (transition i) BACKOFF p o t md (tb_down_post i p o t).
+Proof.
+  intros Hmd. pdestr p. unfold Model.transition. cbv zeta.
+  xstep. xstep. apply sx_rollback.
+  unfold tb_down_post, gu_p. cbv zeta. unfold adjust_times. pcbv.
+  destruct ((xdel >? 0) && (t <? xdel - xbo * U)) eqn:Eadj; pcbv; xrun; try (xgiveup; xrun); xleaf.
+Qed.
+
+Theorem transition_backoff_spec w i :
+  sts w i = BACKOFF -> pid (procs w i) = 0 -> mood w >= 1 ->
+  exists w', transition i w = (Some tt, w') /\ fr i w w' /\
+             tb_post i (procs w i) (out w) (now w) tt (sts w' i) (procs w' i) (out w').
+Proof.
+  intros Hs Hp Hm. destruct (sx_world i (transition i) w (tb_post i (procs w i) (out w) (now w))) as ([] & w' & H).
+  - rewrite Hs. apply transition_backoff_sx; assumption.
+  - exists w'. exact H.
+Qed.
+
+Lemma adjust_backoff_backoff c t p : backoff (adjust_times U BACKOFF c t p) = backoff p.
+Proof. unfold adjust_times. destruct ((delay p >? 0) && (t <? delay p - backoff p * U)); autorewrite with procdb; reflexivity. Qed.
+
+Lemma spawn_fail_backoff p t : backoff (spawn_fail_p p t) = backoff p + 1.
+Proof. unfold PolicyRun.spawn_fail_p. autorewrite with procdb. reflexivity. Qed.
+
+(* A2: when a pass of `transition` (daemon RUNNING) announces BACKOFF -> FATAL, the number of failed
+   attempts counted just before the announcement exceeded startretries: either the count the pass
+   found (and then no retry was attempted), or that count plus the attempt that just failed *)
+Theorem fatal_only_when_retries_exhausted w i :
+  sts w i = BACKOFF -> pid (procs w i) = 0 -> mood w >= 1 ->
+  exists w', transition i w = (Some tt, w') /\ fr i w w' /\
+    forall l x e, out w' = l ++ out w -> In (EState i BACKOFF FATAL x e) l ->
+      sts w' i = FATAL /\
+      ((backoff (procs w i) > c_startretries (cf i) /\ l = [EState i BACKOFF FATAL 0 true]) \/
+       (backoff (procs w i) + 1 > c_startretries (cf i) /\ backoff (procs w i) <= c_startretries (cf i) /\
+        exists k, l = [EState i BACKOFF FATAL 0 true; EState i STARTING BACKOFF (backoff (procs w i) + 1) true;
+                       ESpawnFail i k; EState i BACKOFF STARTING (backoff (procs w i)) true])).
+Proof.
+  intros Hs Hp Hm. destruct (transition_backoff_spec w i Hs Hp Hm) as (w' & E & F & HQ).
+  exists w'. split; [exact E | split; [exact F|]]. intros l x e El Hin.
+  unfold tb_post in HQ. cbv zeta in HQ.
+  set (p0 := adjust_times U BACKOFF (cf i) (now w) (procs w i)) in *.
+  assert (Hb0 : backoff p0 = backoff (procs w i)) by apply adjust_backoff_backoff.
+  assert (Hinv : forall l', l ++ out w = l' ++ out w -> l = l') by (intros l'; apply app_inv_tail).
+  destruct (retry_due (cf i) p0 (now w)) eqn:Er.
+  - destruct HQ as [(np & _ & _ & Eo) | (k & HQ)].
+    + rewrite El in Eo. apply (Hinv [_; _]) in Eo. subst l. cbn in Hin. intuition discriminate.
+    + destruct (give_up_due (cf i) (spawn_fail_p p0 (now w))) eqn:Eg; destruct HQ as (Es' & _ & Eo);
+        rewrite El in Eo.
+      * apply (Hinv [_; _; _; _]) in Eo. split; [exact Es'|]. right.
+        unfold give_up_due in Eg. rewrite spawn_fail_backoff, Hb0 in Eg.
+        unfold retry_due in Er. rewrite Hb0 in Er. repeat split; try lia. exists k. exact Eo.
+      * apply (Hinv [_; _; _]) in Eo. subst l. cbn in Hin. intuition discriminate.
+  - destruct (give_up_due (cf i) p0) eqn:Eg; destruct HQ as (Es' & _ & Eo); rewrite El in Eo.
+    + apply (Hinv [_]) in Eo. split; [exact Es'|]. left. unfold give_up_due in Eg. rewrite Hb0 in Eg. split; [lia | exact Eo].
+    + apply (Hinv []) in Eo. subst l. destruct Hin.
+Qed.
+
+(* ... and conversely: a BACKOFF process whose retries are exhausted is FATAL after one pass, without a new attempt *)
+Theorem exhausted_backoff_becomes_fatal w i :
+  sts w i = BACKOFF -> pid (procs w i) = 0 -> mood w >= 1 ->
+  give_up_due (cf i) (procs w i) = true ->
+  exists w', transition i w = (Some tt, w') /\ fr i w w' /\
+             sts w' i = FATAL /\ out w' = EState i BACKOFF FATAL 0 true :: out w.
+Proof.
+  intros Hs Hp Hm Hg. destruct (transition_backoff_spec w i Hs Hp Hm) as (w' & E & F & HQ).
+  exists w'. split; [exact E | split; [exact F|]].
+  unfold tb_post in HQ. cbv zeta in HQ.
+  set (p0 := adjust_times U BACKOFF (cf i) (now w) (procs w i)) in *.
+  assert (Hb0 : backoff p0 = backoff (procs w i)) by apply adjust_backoff_backoff.
+  unfold give_up_due in Hg.
+  replace (retry_due (cf i) p0 (now w)) with false in HQ by (unfold retry_due; lia).
+  replace (give_up_due (cf i) p0) with true in HQ by (unfold give_up_due; lia).
+  tauto.
+Qed.
+
+(* ---------- Part A4: who gets started by `transition` *)
+Lemma transition_exited_sx i p o t md :
+  pid p = 0 -> md >= 1 ->
+  sx i (transition i) EXITED p o t md (fun u s' p' o' =>
+    (should_restart (cf i) (exitstatus p) = true -> spawn_post i EXITED p o t u s' p' o') /\
+    (should_restart (cf i) (exitstatus p) = false -> s' = EXITED /\ p' = p /\ o' = o)).
+Proof.
+  intros Hp Hmd. pdestr p. pcbv_in Hp. subst xpid. unfold Model.transition. cbv zeta.
+  xstep. xstep. xstep. cbn [adjust_times]. unfold PolicyRun.spawn_post, PolicyRun.spawn_ok_p, PolicyRun.spawn_fail_p, sp1. pcbv.
+  xrun; [xspawn; xrun|]; (split; intros HH; [|try discriminate HH]); try discriminate HH; xleaf.
+Qed.
+
+Lemma transition_stopped_sx i p o t md :
+  pid p = 0 -> md >= 1 ->
+  sx i (transition i) STOPPED p o t md (fun u s' p' o' =>
+    (autostart_due (cf i) p = true -> spawn_post i STOPPED p o t u s' p' o') /\
+    (autostart_due (cf i) p = false -> s' = STOPPED /\ p' = p /\ o' = o)).
+Proof.
+  intros Hp Hmd. pdestr p. pcbv_in Hp. subst xpid. unfold Model.transition. cbv zeta.
+  xstep. xstep. xstep. cbn [adjust_times]. unfold PolicyRun.spawn_post, PolicyRun.spawn_ok_p, PolicyRun.spawn_fail_p, sp1. pcbv.
+  xrun; [xspawn; xrun|]; (split; intros HH; [|try discriminate HH]); try discriminate HH; xleaf.
+Qed.
+
+(* FATAL (and UNKNOWN) are never touched, whatever the mood *)
+Lemma transition_fatal_sx i p o t md :
+  sx i (transition i) FATAL p o t md (fun _ s' p' o' => s' = FATAL /\ p' = p /\ o' = o).
+Proof.
+  pdestr p. unfold Model.transition. cbv zeta.
+  xstep. xstep. xstep. cbn [adjust_times]. xrun; xleaf.
+Qed.
+
+(* while the daemon is shutting down nothing is started *)
+Lemma transition_down_sx i s p o t md :
+  md < 1 -> s = EXITED \/ s = STOPPED ->
+  sx i (transition i) s p o t md (fun _ s' p' o' => s' = s /\ p' = p /\ o' = o).
+Proof.
+  intros Hmd Hs. pdestr p. unfold Model.transition. cbv zeta.
+  destruct Hs as [-> | ->]; xstep; xstep; xstep; cbn [adjust_times]; xrun; xleaf.
+Qed.
+
+Lemma app_cons_not_nil {X} (l : list X) e o : l ++ e :: o <> o.
+Proof.
+  intros H. apply (f_equal (@length X)) in H. rewrite app_length in H. cbn in H. lia.
+Qed.
+
+(* A4, in plain terms.  From a boundary-like world (pid 0 in a pid-less state, J2), daemon RUNNING:
+   EXITED: a start attempt is made (STARTING notification, then fork or spawn failure) iff should_restart;
+   STOPPED: iff autostart_due, i.e. iff autostart is set and the process was never started (laststart = 0);
+   FATAL: never.  While the daemon is not RUNNING: never. *)
+Theorem autorestart_decision w i :
+  sts w i = EXITED -> pid (procs w i) = 0 -> mood w >= 1 ->
+  exists w', transition i w = (Some tt, w') /\ fr i w w' /\
+    (should_restart (cf i) (exitstatus (procs w i)) = true ->
+       spawn_post i EXITED (procs w i) (out w) (now w) tt (sts w' i) (procs w' i) (out w')) /\
+    (should_restart (cf i) (exitstatus (procs w i)) = false -> unchanged i w w') /\
+    ((exists l x e, out w' = l ++ EState i EXITED STARTING x e :: out w) <->
+     should_restart (cf i) (exitstatus (procs w i)) = true).
+Proof.
+  intros Hs Hp Hm.
+  destruct (sx_world i (transition i) w _ ltac:(rewrite Hs; apply (transition_exited_sx i _ _ _ _ Hp Hm)))
+    as ([] & w' & E & F & H1 & H2).
+  exists w'. split; [exact E | split; [exact F | split; [exact H1 | split]]].
+  - intros HH. destruct (H2 HH) as (a & b & c). unfold unchanged. rewrite Hs. auto.
+  - split.
+    + intros (l & x & e & El). destruct (should_restart (cf i) (exitstatus (procs w i))); [reflexivity|].
+      destruct (H2 eq_refl) as (_ & _ & Eo). rewrite Eo in El. symmetry in El. apply app_cons_not_nil in El. destruct El.
+    + intros HH. destruct (H1 HH) as [(np & _ & _ & _ & Eo) | (k & _ & _ & Eo)]; rewrite Eo.
+      * eexists [_], _, _. reflexivity.
+      * eexists [_; _], _, _. reflexivity.
+Qed.
+
+Theorem autostart_decision w i :
+  sts w i = STOPPED -> pid (procs w i) = 0 -> mood w >= 1 ->
+  exists w', transition i w = (Some tt, w') /\ fr i w w' /\
+    (autostart_due (cf i) (procs w i) = true ->
+       spawn_post i STOPPED (procs w i) (out w) (now w) tt (sts w' i) (procs w' i) (out w')) /\
+    (autostart_due (cf i) (procs w i) = false -> unchanged i w w') /\
+    ((exists l x e, out w' = l ++ EState i STOPPED STARTING x e :: out w) <->
+     (laststart (procs w i) = 0 /\ c_autostart (cf i) = true)).
+Proof.
+  intros Hs Hp Hm.
+  destruct (sx_world i (transition i) w _ ltac:(rewrite Hs; apply (transition_stopped_sx i _ _ _ _ Hp Hm)))
+    as ([] & w' & E & F & H1 & H2).
+  exists w'. split; [exact E | split; [exact F | split; [exact H1 | split]]].
+  - intros HH. destruct (H2 HH) as (a & b & c). unfold unchanged. rewrite Hs. auto.
+  - assert (Hd : autostart_due (cf i) (procs w i) = true <-> laststart (procs w i) = 0 /\ c_autostart (cf i) = true)
+      by (unfold autostart_due; destruct (c_autostart (cf i)); lia).
+    rewrite <- Hd. split.
+    + intros (l & x & e & El). destruct (autostart_due (cf i) (procs w i)); [reflexivity|].
+      destruct (H2 eq_refl) as (_ & _ & Eo). rewrite Eo in El. symmetry in El. apply app_cons_not_nil in El. destruct El.
+    + intros HH. destruct (H1 HH) as [(np & _ & _ & _ & Eo) | (k & _ & _ & Eo)]; rewrite Eo.
+      * eexists [_], _, _. reflexivity.
+      * eexists [_; _], _, _. reflexivity.
+Qed.
+
+(* a process that was started before (laststart <> 0), e.g. one stopped by the administrator,
+   is not started again by the main loop *)
+Corollary stopped_after_start_stays_down w i :
+  sts w i = STOPPED -> pid (procs w i) = 0 -> laststart (procs w i) <> 0 ->
+  exists w', transition i w = (Some tt, w') /\ fr i w w' /\ unchanged i w w'.
+Proof.
+  intros Hs Hp Hl. destruct (Z_lt_le_dec (mood w) 1) as [Hm|Hm].
+  - destruct (sx_world i (transition i) w _ ltac:(rewrite Hs; apply (transition_down_sx i STOPPED _ _ _ _ Hm); auto))
+      as ([] & w' & E & F & a & b & c).
+    exists w'. unfold unchanged. rewrite Hs. auto.
+  - destruct (autostart_decision w i Hs Hp ltac:(lia)) as (w' & E & F & _ & H2 & _).
+    exists w'. split; [exact E | split; [exact F|]]. apply H2. unfold autostart_due. lia.
+Qed.
+
+Theorem fatal_stays_down w i :
+  sts w i = FATAL -> exists w', transition i w = (Some tt, w') /\ fr i w w' /\ unchanged i w w'.
+Proof.
+  intros Hs.
+  destruct (sx_world i (transition i) w _ ltac:(rewrite Hs; apply transition_fatal_sx)) as ([] & w' & E & F & a & b & c).
+  exists w'. unfold unchanged. rewrite Hs. auto.
+Qed.
+
+Theorem nothing_started_while_shutting_down w i :
+  sts w i = EXITED \/ sts w i = STOPPED -> mood w < 1 ->
+  exists w', transition i w = (Some tt, w') /\ fr i w w' /\ unchanged i w w'.
+Proof.
+  intros Hs Hm.
+  destruct (sx_world i (transition i) w _ ltac:(apply (transition_down_sx i _ _ _ _ _ Hm Hs))) as ([] & w' & E & F & a & b & c).
+  exists w'. unfold unchanged. auto.
+Qed.
+
+End Policy.
+
 (* hypotheses satisfiable: a run with two forks (autostart, then restart after an unexpected exit) *)
 Example fork_only_from_spawn_states_example :
   let pc := [mkConf 1 3 10 15 999 true ARUnexpected [0] false false CmdOk 0%nat] in
